@@ -48,7 +48,7 @@ var fnWhitelist = map[string][]string{
 		"Info.Validate", "Export.Validate", "isContainedIn", "Exports.Validate", "Exports.HasExportContainingSubject", "Mapping.Validate",
 		"CreateValidationResults", "ResponsePermission.Validate", "Permissions.Validate",
 		"OperatorLimits.IsEmpty", "OperatorLimits.Validate", "ExternalAuthorization.Validate",
-		"UserScope.Validate", "SigningKeys.Validate", "Account.Validate", "AccountClaims.Validate", "GenericClaims.Validate", "AuthorizationRequestClaims.Validate", "AuthorizationResponseClaims.Validate", "TimeRange.Validate", "Limits.Validate", "User.Validate", "UserClaims.Validate", "ParseServerVersion", "Operator.validateAccountServerURL", "ValidateOperatorServiceURL", "Operator.validateOperatorServiceURLs", "Operator.Validate", "OperatorClaims.Validate", "OperatorClaims.ExpectedPrefixes", "AccountClaims.ExpectedPrefixes", "UserClaims.ExpectedPrefixes", "ActivationClaims.ExpectedPrefixes", "AuthorizationRequestClaims.ExpectedPrefixes", "AuthorizationResponseClaims.ExpectedPrefixes", "GenericClaims.ExpectedPrefixes", "loadClaims", "Decode", "v1OperatorClaims.migrateV1", "v1UserClaims.migrateV1", "v1ActivationClaims.migrateV1", "SigningKeys.Add", "v1AccountClaims.migrateV1", "UserClaims.Encode", "ActivationClaims.Encode", "OperatorClaims.Encode", "AccountClaims.Encode", "GenericClaims.Encode", "AuthorizationRequestClaims.Encode", "AuthorizationResponseClaims.Encode", "OperatorClaims.updateVersion", "AccountClaims.updateVersion", "UserClaims.updateVersion", "ActivationClaims.updateVersion", "AuthorizationRequestClaims.updateVersion", "AuthorizationResponseClaims.updateVersion", "DecodeOperatorClaims", "DecodeAccountClaims", "DecodeUserClaims", "DecodeAuthorizationRequestClaims", "DecodeAuthorizationResponseClaims",
+		"UserScope.Validate", "SigningKeys.Validate", "Account.Validate", "AccountClaims.Validate", "GenericClaims.Validate", "AuthorizationRequestClaims.Validate", "AuthorizationResponseClaims.Validate", "TimeRange.Validate", "Limits.Validate", "User.Validate", "UserClaims.Validate", "ParseServerVersion", "Operator.validateAccountServerURL", "ValidateOperatorServiceURL", "Operator.validateOperatorServiceURLs", "Operator.Validate", "OperatorClaims.Validate", "OperatorClaims.ExpectedPrefixes", "AccountClaims.ExpectedPrefixes", "UserClaims.ExpectedPrefixes", "ActivationClaims.ExpectedPrefixes", "AuthorizationRequestClaims.ExpectedPrefixes", "AuthorizationResponseClaims.ExpectedPrefixes", "GenericClaims.ExpectedPrefixes", "loadClaims", "ClaimsData.verify", "Decode", "v1OperatorClaims.migrateV1", "v1UserClaims.migrateV1", "v1ActivationClaims.migrateV1", "SigningKeys.Add", "v1AccountClaims.migrateV1", "UserClaims.Encode", "ActivationClaims.Encode", "OperatorClaims.Encode", "AccountClaims.Encode", "GenericClaims.Encode", "AuthorizationRequestClaims.Encode", "AuthorizationResponseClaims.Encode", "OperatorClaims.updateVersion", "AccountClaims.updateVersion", "UserClaims.updateVersion", "ActivationClaims.updateVersion", "AuthorizationRequestClaims.updateVersion", "AuthorizationResponseClaims.updateVersion", "DecodeOperatorClaims", "DecodeAccountClaims", "DecodeUserClaims", "DecodeAuthorizationRequestClaims", "DecodeAuthorizationResponseClaims",
 	},
 	"V1": {
 		"Subject.HasWildCards", "Subject.IsContainedIn", "cleanSubject",
@@ -82,20 +82,21 @@ type fnInfo struct {
 }
 
 type fnGen struct {
-	p          *packages.Package
-	short      string
-	fns        map[string]*fnInfo // by key
-	structs    map[string]*types.Struct
-	order      []string
-	out        strings.Builder
-	needURL    bool // the mirror of net/url.URL is used
-	unsupp     map[string]string
-	opaque     map[string]*types.Func // package functions called but deliberately not translated: fields of `Opq`
-	opqOrd     []string
-	ifaces     map[string][]string // package interface -> names of the struct types whose pointer implements it
-	dispatch   map[string]bool     // emitted interface dispatchers
-	foreign    map[string]bool
-	foreignOrd []string
+	p            *packages.Package
+	short        string
+	fns          map[string]*fnInfo // by key
+	structs      map[string]*types.Struct
+	order        []string
+	out          strings.Builder
+	needURL      bool               // the mirror of net/url.URL is used
+	dispatchInfo map[string]*fnInfo // dispatcher name -> the info of its first alternative (arity, now/opq)
+	unsupp       map[string]string
+	opaque       map[string]*types.Func // package functions called but deliberately not translated: fields of `Opq`
+	opqOrd       []string
+	ifaces       map[string][]string // package interface -> names of the struct types whose pointer implements it
+	dispatch     map[string]bool     // emitted interface dispatchers
+	foreign      map[string]bool
+	foreignOrd   []string
 }
 
 type fnCtx struct {
@@ -246,14 +247,17 @@ var opaqueFns = map[string]bool{"parseClaims": true, "ClaimsData.encode": true, 
 // foreignOpaque: functions of other packages that translated code may call; each becomes a field of `Opq`
 // (name, Lean type of the field, and how a two-value result is read)
 var foreignOpaque = map[string]string{
-	"strconv.Atoi":                   "Str → Option Int", // none = the error result
+	"strconv.Atoi":                   "Str → Option Int",                     // none = the error result
+	"nkeys.FromPublicKey":            "Str → Option Nat",                     // none = the error result; a key pair is an uninterpreted handle
+	"nkeys.Decode":                   "Int → (List Int) → Option (List Int)", // none = the error result
+	"nkeys.Prefix":                   "Str → Int",
+	"KeyPair.Verify":                 "Nat → (List Int) → (List Int) → Bool", // the method of nkeys.KeyPair; true = the error result is non-nil
 	"nkeys.IsValidPublicAccountKey":  "Str → Bool",
 	"nkeys.IsValidPublicUserKey":     "Str → Bool",
 	"nkeys.IsValidPublicOperatorKey": "Str → Bool",
 	"nkeys.IsValidPublicServerKey":   "Str → Bool",
 	"nkeys.IsValidPublicCurveKey":    "Str → Bool",
 	"nkeys.IsValidPublicClusterKey":  "Str → Bool",
-	"Claims.verify":                  "I_Claims → Str → (List Int) → Bool",
 	"Claims.Verify":                  "I_Claims → Str → (List Int) → Bool", // v1compat spells it with a capital // the interface method `verify(payload, sig)`: the signature check under the claim's own issuer
 	"url.Parse":                      "Str → Option T_url_URL",             // none = the error result is non-nil (and the *URL is nil)
 	"time.Parse":                     "Str → Str → Bool",                   // true = the error result is non-nil
@@ -1203,6 +1207,9 @@ func (c *fnCtx) call(x *ast.CallExpr) ex {
 			unsup("conversion arity")
 		}
 		from, to := c.g.leanType(c.typeOf(x.Args[0])), c.g.leanType(tv.Type)
+		if from == "Str" && to == "(List Int)" {
+			return c.pureApp("strBytes", c.expr(x.Args[0])) // []byte(s): the UTF-8 bytes
+		}
 		if from != to {
 			unsup("conversion %s -> %s", from, to)
 		}
@@ -1314,6 +1321,20 @@ func (c *fnCtx) call(x *ast.CallExpr) ex {
 			}
 		}
 	}
+	if q := c.g.foreignCall(x); q != "" && foreignOpaque[q] == "Str → Int" {
+		return c.pureApp("opq."+strings.ReplaceAll(q, ".", "_"), c.expr(x.Args[0]))
+	}
+	if se, ok := x.Fun.(*ast.SelectorExpr); ok && se.Sel.Name == "Verify" && len(x.Args) == 2 && c.g.leanTypeQuiet(c.typeOf(se.X)) == "Nat" {
+		q := "KeyPair.Verify"
+		if c.g.foreign == nil {
+			c.g.foreign = map[string]bool{}
+		}
+		if !c.g.foreign[q] {
+			c.g.foreign[q] = true
+			c.g.foreignOrd = append(c.g.foreignOrd, q)
+		}
+		return c.pureApp("opq.KeyPair_Verify", c.expr(se.X), c.expr(x.Args[0]), c.expr(x.Args[1]))
+	}
 	if q := c.g.foreignCall(x); q != "" && foreignOpaque[q] == "Str → Bool" {
 		return c.pureApp("opq."+strings.ReplaceAll(q, ".", "_"), c.expr(x.Args[0]))
 	}
@@ -1409,16 +1430,34 @@ func (c *fnCtx) ifaceDispatch(in, m string) *fnInfo {
 // ifaceCall: a method call on a value of a package interface: dispatch on the dynamic type. Every implementor's
 // method must be translated, take no further arguments and mutate nothing.
 func (c *fnCtx) ifaceCall(in string, se *ast.SelectorExpr, x *ast.CallExpr) ex {
-	if len(x.Args) != 0 {
-		unsup("interface method call with arguments")
-	}
 	m := se.Sel.Name
 	dname := "I_" + in + "." + m
+	var first *fnInfo
 	if !c.g.dispatch[dname] {
-		var ret string
 		var alts []string
 		for _, impl := range c.g.ifaces[in] {
 			fi, ok := c.g.fns[impl+"."+m]
+			recv := "v"
+			if !ok {
+				// a method promoted from an embedded struct: dispatch to that struct's method on the embedded field
+				if tn, isT := c.g.p.Types.Scope().Lookup(impl).(*types.TypeName); isT {
+					obj, index, _ := types.LookupFieldOrMethod(types.NewPointer(tn.Type()), true, c.g.p.Types, m)
+					if fn, isF := obj.(*types.Func); isF && len(index) > 1 {
+						t := tn.Type()
+						for _, ix := range index[:len(index)-1] {
+							st := t.Underlying().(*types.Struct)
+							recv += ".f_" + st.Field(ix).Name()
+							t = st.Field(ix).Type()
+							if pt, isP := t.(*types.Pointer); isP {
+								t = pt.Elem()
+							}
+						}
+						if rn, isN := t.(*types.Named); isN {
+							fi, ok = c.g.fns[rn.Obj().Name()+"."+fn.Name()]
+						}
+					}
+				}
+			}
 			if !ok || fi.retType == "" {
 				unsup("interface method %s.%s: %s.%s is not translated", in, m, impl, m)
 			}
@@ -1427,20 +1466,73 @@ func (c *fnCtx) ifaceCall(in string, se *ast.SelectorExpr, x *ast.CallExpr) ex {
 					unsup("interface method %s.%s mutates", in, m)
 				}
 			}
-			if ret != "" && ret != fi.retType {
-				unsup("interface method %s.%s: result types differ", in, m)
+			if first != nil && (first.retType != fi.retType || len(first.params) != len(fi.params) || first.usesOpq != fi.usesOpq || first.usesNow != fi.usesNow) {
+				unsup("interface method %s.%s: implementors differ", in, m)
 			}
-			ret = fi.retType
-			alts = append(alts, fmt.Sprintf("  | .%s v => %s v", impl, fi.leanName))
+			if first == nil {
+				first = fi
+			}
+			var as []string
+			for i := 1; i < len(fi.params); i++ {
+				as = append(as, fmt.Sprintf("a%d", i))
+			}
+			if fi.usesNow {
+				as = append(as, "now")
+			}
+			if fi.usesOpq {
+				as = append(as, "opq")
+			}
+			alts = append(alts, strings.TrimRight(fmt.Sprintf("  | .%s v => %s %s %s", impl, fi.leanName, recv, strings.Join(as, " ")), " "))
+		}
+		if first == nil {
+			unsup("interface %s has no implementor", in)
 		}
 		if c.g.dispatch == nil {
 			c.g.dispatch = map[string]bool{}
+			c.g.dispatchInfo = map[string]*fnInfo{}
+		}
+		if c.g.dispatchInfo == nil {
+			c.g.dispatchInfo = map[string]*fnInfo{}
 		}
 		c.g.dispatch[dname] = true
-		c.aux = append(c.aux, fmt.Sprintf("/-- dynamic dispatch of `%s.%s` -/\ndef %s (c : I_%s) : Option %s :=\n  match c with\n%s\n", in, m, dname, in, ret, strings.Join(alts, "\n")))
+		c.g.dispatchInfo[dname] = first
+		var ps []string
+		for i := 1; i < len(first.params); i++ {
+			ps = append(ps, fmt.Sprintf("(a%d : %s)", i, c.g.leanType(first.params[i].Type())))
+		}
+		if first.usesNow {
+			ps = append(ps, "(now : Int)")
+		}
+		if first.usesOpq {
+			ps = append(ps, "(opq : Opq)")
+		}
+		sig := ""
+		if len(ps) > 0 {
+			sig = " " + strings.Join(ps, " ")
+		}
+		c.aux = append(c.aux, fmt.Sprintf("/-- dynamic dispatch of `%s.%s` -/\ndef %s (c : I_%s)%s : Option %s :=\n  match c with\n%s\n", in, m, dname, in, sig, first.retType, strings.Join(alts, "\n")))
+	} else if c.g.dispatchInfo != nil {
+		first = c.g.dispatchInfo[dname]
 	}
 	recv := c.expr(se.X)
-	return ex{"(" + dname + " " + recv.bind() + ")", true}
+	parts := []string{recv.bind()}
+	for _, a := range x.Args {
+		parts = append(parts, c.expr(a).bind())
+	}
+	if first != nil {
+		if len(x.Args) != len(first.params)-1 {
+			unsup("interface method call arity")
+		}
+		if first.usesNow {
+			parts = append(parts, "now")
+		}
+		if first.usesOpq {
+			parts = append(parts, "opq")
+		}
+	} else if len(x.Args) != 0 {
+		unsup("interface method call with arguments")
+	}
+	return ex{"(" + dname + " " + strings.Join(parts, " ") + ")", true}
 }
 
 func selNameAny(e ast.Expr) string {
@@ -2180,10 +2272,18 @@ func (c *fnCtx) assign(b *block, x *ast.AssignStmt) {
 	if len(x.Lhs) == 2 && len(x.Rhs) == 1 {
 		if call, ok := x.Rhs[0].(*ast.CallExpr); ok {
 			if q := c.g.foreignCall(call); q != "" {
-				a := c.expr(call.Args[0])
+				var as []string
+				for _, ae := range call.Args {
+					as = append(as, c.expr(ae).bind())
+				}
 				c.tmpN++
 				tmp := fmt.Sprintf("__f%d", c.tmpN)
-				b.add("let %s := opq.%s %s", tmp, strings.ReplaceAll(q, ".", "_"), a.bind())
+				b.add("let %s := opq.%s %s", tmp, strings.ReplaceAll(q, ".", "_"), strings.Join(as, " "))
+				if z, ok := map[string]string{"nkeys.FromPublicKey": "(0 : Nat)", "nkeys.Decode": "([] : List Int)"}[q]; ok {
+					c.store(b, x.Lhs[0], "("+tmp+".getD "+z+")")
+					c.store(b, x.Lhs[1], tmp+".isNone")
+					return
+				}
 				if q == "url.Parse" {
 					c.g.leanType(c.typeOf(x.Lhs[0]))
 					if id, ok := x.Lhs[0].(*ast.Ident); ok && id.Name != "_" {
